@@ -110,7 +110,9 @@ PROPS = {
                        "RecordSection::{new, next, skip_next, next_section}, ParsedRecord::{new, parse, skip}, RecordHeader::{new, rdlen, "
                        "parse_ref, parse_rdlen}, Section::{first, count, next_section}: the parser never moves backwards or out of the "
                        "message, a record's RDATA window lies inside the message, each iterator yields at most `count` items and "
-                       "nothing after its first error (fuse), and the skip loops terminate. Unit `optiter` (base/opt/mod.rs): "
+                       "nothing after its first error (fuse), and the skip loops terminate; Message::{question, answer, authority, additional, "
+                       "sections, header_counts} and QuestionSection::{new, next_section} on every message view of at least 12 octets: "
+                       "their unwrap()s cannot fail (a record section other than the additional one always has a successor). Unit `optiter` (base/opt/mod.rs): "
                        "Opt::check_slice accepts exactly the well-framed option sequences of at most 65535 octets; "
                        "OptIter::{new, next_step, next}: total for every option type, a step consumes exactly one whole option "
                        "(header plus announced length, which must fit), the iterator terminates, stays on option boundaries of "
